@@ -1,6 +1,6 @@
 CONSTANTS
   Wide = FALSE
-  MaxFrags = 3
+  MaxFrags = 4
 SPECIFICATION Spec
 INVARIANTS WalkFindsFirstPair NonIdentifierNeverResolves EmitCase
 CHECK_DEADLOCK FALSE
